@@ -180,6 +180,20 @@ func (x *Exec) applyContract(st *State, site ssa.Instruction, fn *ssa.Function, 
 		x.safety(st, site, "nil", Neq(args[0].Idx[0], IntLit(0)))
 	}
 	x.callN[name]++
+	// caller-side hints: "assert at call <callee> : expr" over the callee's parameter names
+	if x.contract != nil {
+		for ai, a := range x.contract.Asserts {
+			if strings.HasPrefix(a.Anchor, "call ") && strings.HasSuffix(name, strings.TrimSpace(strings.TrimPrefix(a.Anchor, "call "))) {
+				lbl := a.Clause.Label
+				if lbl == "" {
+					lbl = fmt.Sprint(ai)
+				}
+				g := x.evalClause(ce, a.Clause, name)
+				x.oblige(st, "assert", fmt.Sprintf("%s#%d.%s", name, x.callN[name], lbl), g, "hint before call to "+name+": "+a.Clause.Text)
+				x.assume(st, g)
+			}
+		}
+	}
 	for i, r := range c.Requires {
 		lbl := r.Label
 		if lbl == "" {
@@ -187,7 +201,7 @@ func (x *Exec) applyContract(st *State, site ssa.Instruction, fn *ssa.Function, 
 		}
 		g := x.evalClause(ce, r, name)
 		x.oblige(st, "callpre", fmt.Sprintf("%s#%d.%s", name, x.callN[name], lbl), g, "precondition of "+name+": "+r.Text)
-		x.assume(st, g)
+		x.assume(st, x.dropKnownConjuncts(True(), g))
 	}
 	pre := st.heap.Clone()
 	allocPre := st.alloc
